@@ -179,7 +179,9 @@ def cases(tier, seed):
                "form": form, "target": target,
                "wkind": rng.choice(["none", "ints", "dyadic", "floats", "mixed", "ints"]),
                "init": rng.choice(["zero", "zero", "zerof", "bins"]),
-               "ctype": rng.choice(["list", "tuple"]),
+               # "reused": one list object refilled in place before every fill (a reader that
+               # reuses its buffer); the coordinate is what the list holds when fill is called
+               "ctype": rng.choice(["list", "list", "tuple", "tuple", "reused"]),
                "ctx": rng.random() < 0.5,
                "nsample": rng.choice([60, 150, 400]) if tier == "quick"
                else rng.choice([150, 400, 1200]),
@@ -328,13 +330,18 @@ def _fill_case(r, obs, lena):
     ref_oor = 0
     weights = [None] * len(pts) if element else _weights(r["wkind"], rng, len(pts))
     n_in = n_out = 0
+    reused_buf = []
     wsum_int = 0
     all_int = True
     for j, (pt, w) in enumerate(zip(pts, weights)):
         if dim == 1 and r["form"] == "flat":
             coord = pt[0]
         else:
-            coord = list(pt) if r["ctype"] == "list" else tuple(pt)
+            if r["ctype"] == "reused":
+                reused_buf[:] = pt
+                coord = reused_buf
+            else:
+                coord = list(pt) if r["ctype"] == "list" else tuple(pt)
         # reference model: linear scan, same addition
         cell = mon.scan_cell(E, pt)
         wv = 1 if w is None else w
@@ -399,6 +406,29 @@ def _fill_case(r, obs, lena):
     mon.final_conservation(h)
     if len(pts) >= 5 and n_in and n_out:
         obs.nontrivial = True
+    if element:
+        # the element used block after block (FillRequest(..., reset=True) does this): after
+        # every reset() the same fills must give the same cells again - weight filled before
+        # a reset is neither kept nor written into what reset() restores
+        for rnd in (1, 2):
+            el.reset()
+            h2 = el._hist
+            for pt in pts:
+                if dim == 1 and r["form"] == "flat":
+                    el.fill(pt[0])
+                else:
+                    el.fill(tuple(pt) if r["ctype"] == "tuple" else list(pt))
+            flat2 = [lena.structures.get_bin_on_index(list(idx), h2.bins)
+                     for idx in itertools.product(*[range(n) for n in nbins])]
+            obs.count("element_reset_rounds")
+            obs.count("reference_model_cells_compared", len(flat2))
+            if not obs.check(flat2 == ref and h2.n_out_of_range == ref_oor,
+                             "element-after-reset-differs:round-%d" % rnd,
+                             "Histogram(%r, %r): reset() no. %d followed by the same %d fills gives "
+                             "cells %r, n_out_of_range %r; the first round gave %r, %r"
+                             % (edges, kw, rnd, len(pts), flat2, h2.n_out_of_range, ref, ref_oor)):
+                break
+            mon.final_conservation(h2)
 
 
 def finish(tier, merged):
